@@ -683,9 +683,12 @@ impl Transformer {
     ) -> Result<()> {
         let mut new_svg_attrs = AttrMap::new();
         let mut orig_svg_attrs = HashMap::new();
+        let mut orig_svg_classes = None;
         if let OutputEvent::Start(orig_svg) | OutputEvent::Empty(orig_svg) = first_svg {
             new_svg_attrs = orig_svg.attrs.clone();
             orig_svg_attrs = orig_svg.get_attrs();
+            // (classes are held apart from the other attributes)
+            orig_svg_classes = Some(orig_svg.classes.clone());
         }
         if !orig_svg_attrs.contains_key("version") {
             new_svg_attrs.insert("version", "1.1");
@@ -745,14 +748,11 @@ impl Transformer {
             }
         }
 
-        OutputList::from(
-            [OutputEvent::Start(SvgElement::new(
-                "svg",
-                &new_svg_attrs.to_vec(),
-            ))]
-            .as_slice(),
-        )
-        .write_to(writer)
+        let mut new_svg = SvgElement::new("svg", &new_svg_attrs.to_vec());
+        if let Some(classes) = orig_svg_classes {
+            new_svg.add_classes(&classes);
+        }
+        OutputList::from([OutputEvent::Start(new_svg)].as_slice()).write_to(writer)
     }
 
     fn write_auto_styles(&self, events: &mut OutputList, writer: &mut dyn Write) -> Result<()> {
